@@ -217,7 +217,7 @@ def _solve(cmdl, solver, timeout, mem_gb, res):
 SAFETY_CLASSES = ("overflow", "pointer_dereference", "pointer_arithmetic", "array_bounds", "undefined-shift", "division-by-zero", "pointer_primitives")
 
 
-def _safety_only(cb, gb, mem_gb, res, budget=240):
+def _safety_only(cb, gb, mem_gb, res, budget=360):
     try:
         lp = subprocess.run(["cbmc", "--no-standard-checks", "--show-properties", "--json-ui", gb], stdout=subprocess.PIPE,
                             stderr=subprocess.PIPE, text=True, timeout=120)
@@ -233,15 +233,37 @@ def _safety_only(cb, gb, mem_gb, res, budget=240):
                     names.append(n)
     if not names:
         return None
-    cmd = [x for x in cb if x != "--trace"]
-    for n in names:
-        cmd += ["--property", n]
-    cmd.append(gb)
-    try:
-        p = _run(cmd, budget, mem_gb, res.cmds)
-        data = json.loads(p.stdout)
-    except Exception:
-        return None
+    base = [x for x in cb if x != "--trace"]
+    if "--object-bits" in base:
+        k = base.index("--object-bits")
+        base = base[:k] + base[k + 2:]
+    # one batch per obligation class (slicing keeps the number of addressed objects and the formula small)
+    t_start = time.time()
+    all_data = []
+    for cls in SAFETY_CLASSES:
+        batch = [n for n in names if ("." + cls + ".") in n]
+        if not batch:
+            continue
+        for ob in (None, 10, 12):
+            left = budget - (time.time() - t_start)
+            if left < 10:
+                break
+            cmd = list(base) + (["--object-bits", str(ob)] if ob else [])
+            for n in batch:
+                cmd += ["--property", n]
+            cmd.append(gb)
+            try:
+                p = _run(cmd, int(left), mem_gb, res.cmds)
+            except Exception:
+                break
+            if "too many addressed objects" in p.stdout:
+                continue
+            try:
+                all_data += json.loads(p.stdout)
+            except Exception:
+                pass
+            break
+    data = all_data
     props = []
     for item in data:
         if isinstance(item, dict) and "result" in item:
